@@ -14,3 +14,62 @@ package lex
 //@ func octval
 //@   ensures (r >= '0' && r <= '7') ==> result == r - '0'
 //@   ensures !(r >= '0' && r <= '7') ==> result == -1
+
+// ---- character sets (C10): sorted, non-overlapping closed ranges stored as flattened pairs ----
+
+//@ pred csShape(c []rune) = len(c) % 2 == 0 && forall k in 0..len(c) :: 0 <= c[k] && c[k] <= 1114111
+//@ pred csSorted(c []rune) = forall p in 0..len(c) :: forall q in p+1..len(c) :: c[p] <= c[q] && ((p % 2 == 1 || q > p + 1) ==> c[p] < c[q])
+// Membership in a set. csIn is unfolded wherever it is used; csMem has the same definition but is kept
+// as a function symbol (with its definition as an axiom), which gives the solver a trigger for
+// statements quantified over all runes.
+//@ spec func csIn(c []rune, x rune) bool = exists k in 0..len(c) :: k % 2 == 0 && c[k] <= x && x <= c[k+1]
+//@ fun csMem(c []rune, x rune) bool = exists k in 0..len(c) :: k % 2 == 0 && c[k] <= x && x <= c[k+1]
+
+//@ func charset.oneRune
+//@   requires csShape(c) && csSorted(c)
+//@   ensures result <==> (exists x in 0..1114112 :: csIn(c, x) && forall y in 0..1114112 :: csIn(c, y) ==> y == x)
+
+//@ func isid
+//@   ensures result <==> (r >= 'a' && r <= 'z' || r >= 'A' && r <= 'Z' || r >= '0' && r <= '9' || r == '_')
+
+//@ func intersect
+//@   requires csShape(a) && csSorted(a) && csShape(b) && csSorted(b)
+//@   ensures csShape(result) && csSorted(result)
+//@   ensures forall x in 0..1114112 :: csIn(result, x) <==> csIn(a, x) && csIn(b, x)
+//@   loop 1:
+//@     invariant 0 <= i && i <= len(a) && i % 2 == 0 && 0 <= e && e <= len(b) && e % 2 == 0
+//@     invariant fresh(out) && csShape(out) && csSorted(out)
+//@     invariant forall k in 0..len(out) :: (i < len(a) && e < len(b)) ==> (out[k] < a[i] || out[k] < b[e])
+//@     invariant forall x in 0..1114112 :: ((i < len(a) && x < a[i]) || (e < len(b) && x < b[e]) || i >= len(a) || e >= len(b)) ==> (csIn(out, x) <==> csIn(a, x) && csIn(b, x))
+
+//@ func CharsetOptions.maxRune
+//@   ensures result == (opts.ScanBytes ? 255 : 1114111)
+
+//@ func charset.invert
+//@   requires csShape(*c) && csSorted(*c)
+//@   modifies *c, (*c)[0:cap(*c)]
+//@   ensures csSorted(*c) && len(*c) % 2 == 0
+//@   ensures forall x in 0..(opts.ScanBytes ? 256 : 1114112) :: csMem(*c, x) ==> !old(csMem(*c, x))
+//@   ensures forall x in 0..(opts.ScanBytes ? 256 : 1114112) :: !csMem(*c, x) ==> old(csMem(*c, x))
+//@   loop 1:
+//@     invariant sameslice(r, old(*c)) && 0 <= i && i <= len(r) && i % 2 == 0
+//@     invariant samearray(out, r) && cap(out) == cap(r) && len(out) <= i && len(out) % 2 == 0
+//@     invariant forall k in i..len(r) :: r[k] == old((*c)[k])
+//@     invariant 0 <= next && (i == 0 ==> next == 0) && (i > 0 ==> next == old((*c)[i-1]) + 1)
+//@     invariant csSorted(out) && forall k in 0..len(out) :: 0 <= out[k] && out[k] < next
+//@     invariant forall k in 0..i :: old((*c)[k]) < next
+//@     invariant forall k in i..len(r) :: old((*c)[k]) >= next
+//@     invariant forall x in 0..1114112 :: (x < next && csMem(out, x)) ==> !old(csMem(*c, x))
+//@     invariant forall x in 0..1114112 :: (x < next && !csMem(out, x)) ==> old(csMem(*c, x))
+
+//@ pred csPairs(c []rune) = len(c) % 2 == 0 && forall k in 0..len(c) :: k % 2 == 0 ==> c[k] <= c[k+1]
+
+// appendRange adds [lo, hi] to a list of ranges, merging it with the last range when they touch.
+//@ func appendRange
+//@   requires csPairs(r) && lo <= hi && hi < 2147483647
+//@   requires forall k in 0..len(r) :: r[k] < 2147483647
+//@   modifies r[0:cap(r)]
+//@   ensures csPairs(result) && (fresh(result) || samearray(result, r))
+//@   ensures forall x in 0..1114112 :: csMem(result, x) ==> old(csMem(r, x)) || (lo <= x && x <= hi)
+//@   ensures forall x in 0..1114112 :: old(csMem(r, x)) ==> csMem(result, x)
+//@   ensures forall x in 0..1114112 :: (lo <= x && x <= hi) ==> csMem(result, x)
